@@ -133,10 +133,12 @@ void h_life_rb(void) {
 }
 #endif
 
-#if defined(C19_LIFE_PES) || defined(C19_LIFE_PESR)
+#if defined(C19_LIFE_PES) || defined(C19_LIFE_PESR) || defined(C19_LIFE_PESM)
 /* cocls::function::operator() throws std::bad_function_call when it has no target: libstdc++'s exception class is not translated
  * (boundary); reaching its constructor means the storage's factory was empty */
 void bad_function_call_ctor(void *e) { __CPROVER_assert(0, "cocls::function<Extra()> invoked without a target (bad_function_call)"); }
+#endif
+#if defined(C19_LIFE_PES) || defined(C19_LIFE_PESR)
 #ifdef C19_LIFE_PES
 #define XS PES
 #define xs_ctor drv_pes_ctor
@@ -180,9 +182,45 @@ void h_life_pesr(void) {
 }
 #endif
 
+/* ---- composed life cycle: promise_extra_storage<Extra, reusable_storage_mtsafe> - REAL bodies of both layers and the real function<>
+ * factory.  The inner policy keeps its owner pointer at (block + size IT was asked for) = behind frame AND extra object; alloc and
+ * dealloc of the outer policy must agree on that size, or the inner dealloc looks for the owner inside the (just destroyed) extra
+ * object: own block released while the storage still owns it, busy flag set for ever, no reuse after warm-up, double release in
+ * the storage's destructor.  The extra object's first word (v) is arbitrary, so "the owner is read at the right offset" is checked
+ * for every content of the bytes a wrong offset would hit. */
+#ifdef C19_LIFE_PESM
+#define PM_OFF(sz) ((sz) + sizeof(EXTRA))
+void h_life_pesm(void) {
+  PESM st; cv_i64 v = nondet_size_t(); SYM_SZ(a); SYM_SZ(g); __CPROVER_assume(g < a);
+  MT *own = (MT *)&st;
+  drv_pesm_ctor(&st, v);
+  __CPROVER_assert(gh_x_ctor == 0 && gh_allocs == 0 && MT_BUSY(own) == 0, "extra+mtsafe: construction allocates nothing, block free");
+  cv_i8 *p1 = pesm_alloc(&st, a);                                     /* frame 1 (warm-up): own block */
+  __CPROVER_assert(__CPROVER_rw_ok(p1, PM_OFF(a) + MT_TRAILER) && gh_allocs == 1 && gh_frees == 0 && MT_BUSY(own) == 1, "extra+mtsafe: frame + extra object + owner trailer in the storage's own block, block taken");
+  __CPROVER_assert(p1 == MT_RS(own)->_ptr && MT_OWNER(p1, PM_OFF(a)) == own, "extra+mtsafe: owner trailer written behind frame and extra object (at ptr + size requested from the inner policy)");
+  __CPROVER_assert(gh_x_ctor == 1 && gh_x_ctor_at == p1 + a && gh_x_ctor_v == v && st.inventory == (EXTRA *)(p1 + a) && st.inventory->v == v, "extra+mtsafe: extra object constructed exactly once behind the frame, usable at once");
+  p1[g] = 0x5a;
+  pesm_dealloc(p1, a);                                                /* the frame ends: same size as given to alloc */
+  __CPROVER_assert(gh_x_dtor == 1 && gh_x_dtor_at == p1 + a && gh_x_ctor == 1, "extra+mtsafe: extra object destroyed exactly once with the frame");
+  __CPROVER_assert(gh_frees == 0 && LIVE_BLOCKS == 1 && MT_RS(own)->_ptr == p1 && __CPROVER_rw_ok(p1, PM_OFF(a) + MT_TRAILER), "extra+mtsafe: dealloc does NOT release the own block (the storage still owns it)");
+  __CPROVER_assert(MT_BUSY(own) == 0, "extra+mtsafe: dealloc clears the busy flag of the owning storage (owner read at the offset alloc wrote it)");
+  cv_i8 *p2 = pesm_alloc(&st, a);                                     /* next frame of the same size (two simultaneously live frames: unit pesm_alloc / life_mt) */
+  __CPROVER_assert(p2 == p1 && gh_allocs == 1 && gh_frees == 0 && MT_BUSY(own) == 1 && gh_x_ctor == 2, "extra+mtsafe: after warm-up no heap traffic for an equally sized frame, a new extra object per frame");
+  pesm_dealloc(p2, a);
+  __CPROVER_assert(gh_frees == 0 && MT_BUSY(own) == 0 && LIVE_BLOCKS == 1 && gh_x_dtor == 2, "extra+mtsafe: own block kept, flag free, every extra object destroyed once");
+  drv_pesm_dtor(&st);
+  __CPROVER_assert(LIVE_BLOCKS == 0 && gh_frees == 1 && gh_x_ctor == gh_x_dtor, "extra+mtsafe: the own block dies with the storage, exactly once");
+  SENT("promise_extra_storage<Extra,reusable_storage_mtsafe> life cycle");
+}
+#endif
+
 /* ---- custom_allocator_base<Allocator, async_promise<int>>: operator new (both placement forms) and operator delete are pure
  * forwarders to Allocator::alloc / Allocator::dealloc with the same size.  The policies' alloc/dealloc are abstract callees that
- * record (count, which, arguments) - their behaviour is the subject of the contract units. */
+ * record (count, which, arguments) - their behaviour is the subject of the contract units.
+ * operator delete is called through the driver's drv_delete_<tag> (alias delete_<tag>): c19_promise_delete<promise>(ptr, sz) calls the
+ * promise's deallocation function the way the coroutine's destroy code does - with (ptr, frame size) if it takes a size, else with
+ * (ptr) - so a change of its signature does not break the driver TU but fails the obligation below (the storage must get the size
+ * operator new was given: every policy with a trailer looks for it at ptr+size). */
 #ifdef C19_OPS
 unsigned gh_fw_alloc_calls, gh_fw_dealloc_calls; int gh_fw_which; void *gh_fw_st; cv_i64 gh_fw_sz; cv_i8 *gh_fw_ret, *gh_fw_ptr;
 #define FW_STUBS(tag, A_T, id) \
@@ -190,7 +228,7 @@ unsigned gh_fw_alloc_calls, gh_fw_dealloc_calls; int gh_fw_which; void *gh_fw_st
   void tag##_dealloc(cv_i8 *p, cv_i64 sz) { gh_fw_dealloc_calls++; gh_fw_which = id; gh_fw_ptr = p; gh_fw_sz = sz; }
 cv_i8 *ds_alloc(cv_i64 sz) { gh_fw_alloc_calls++; gh_fw_which = 1; gh_fw_st = 0; gh_fw_sz = sz; return gh_fw_ret; }
 void ds_dealloc(cv_i8 *p, cv_i64 sz) { gh_fw_dealloc_calls++; gh_fw_which = 1; gh_fw_ptr = p; gh_fw_sz = sz; }
-FW_STUBS(rs, RS, 2) FW_STUBS(pa, PA, 3) FW_STUBS(mt, MT, 4) FW_STUBS(ss, SS, 5) FW_STUBS(rb, RB, 6) FW_STUBS(pes, PES, 7) FW_STUBS(pesr, PESR, 8)
+FW_STUBS(rs, RS, 2) FW_STUBS(pa, PA, 3) FW_STUBS(mt, MT, 4) FW_STUBS(ss, SS, 5) FW_STUBS(rb, RB, 6) FW_STUBS(pes, PES, 7) FW_STUBS(pesr, PESR, 8) FW_STUBS(pesm, PESM, 9)
 #define FW_RESET gh_fw_alloc_calls = gh_fw_dealloc_calls = 0; gh_fw_which = 0; gh_fw_st = 0; gh_fw_sz = ~sz; gh_fw_ptr = 0; gh_fw_ret = (cv_i8 *)nondet_ptr()
 #define FW_NEW_OK(id, stp)  (gh_fw_alloc_calls == 1 && gh_fw_dealloc_calls == 0 && gh_fw_which == id && gh_fw_st == (void *)(stp) && gh_fw_sz == sz && r == gh_fw_ret)
 #define FW_DEL_OK(id)       (gh_fw_alloc_calls == 0 && gh_fw_dealloc_calls == 1 && gh_fw_which == id && gh_fw_ptr == blk && gh_fw_sz == sz)
@@ -200,10 +238,10 @@ FW_STUBS(rs, RS, 2) FW_STUBS(pa, PA, 3) FW_STUBS(mt, MT, 4) FW_STUBS(ss, SS, 5) 
     FW_RESET; r = new2_##tag(sz, (void *)&host, (void *)&st, &arg); \
     __CPROVER_assert(FW_NEW_OK(id, stp), #tag ": operator new(sz, this, storage, args...) returns storage.alloc(sz), called exactly once"); \
     FW_RESET; delete_##tag(blk, sz); \
-    __CPROVER_assert(FW_DEL_OK(id), #tag ": operator delete(ptr, sz) calls Allocator::dealloc(ptr, sz) exactly once"); }
+    __CPROVER_assert(FW_DEL_OK(id), #tag ": destroying a frame of sz bytes (promise's operator delete) calls Allocator::dealloc(ptr, sz) exactly once, same pointer, same size as operator new got"); }
 void h_ops(void) {
   FW_CHECK(ds, cv_i8 /* empty class */, 1, 0) FW_CHECK(rs, RS, 2, &st) FW_CHECK(pa, PA, 3, &st) FW_CHECK(mt, MT, 4, &st) FW_CHECK(ss, SS, 5, &st)
-  FW_CHECK(rb, RB, 6, &st) FW_CHECK(pes, PES, 7, &st) FW_CHECK(pesr, PESR, 8, &st)
+  FW_CHECK(rb, RB, 6, &st) FW_CHECK(pes, PES, 7, &st) FW_CHECK(pesr, PESR, 8, &st) FW_CHECK(pesm, PESM, 9, &st)
   SENT("custom_allocator_base operators");
 }
 #endif
